@@ -675,8 +675,16 @@ func isOverloadFunc(name string) bool {
 }
 
 func initGopPkg(ctx *pkgCtx, pkg *gogen.Package, gopSyms map[string]bool) {
-	for name, f := range ctx.syms {
-		if gopSyms[name] {
+	names := make([]string, 0, len(ctx.syms))
+	for name := range ctx.syms {
+		if !gopSyms[name] {
+			names = append(names, name)
+		}
+	}
+	sort.Strings(names) // deterministic load order (ctx.syms is a map)
+	for _, name := range names {
+		f, ok := ctx.syms[name]
+		if !ok {
 			continue
 		}
 		if _, ok := f.(*typeLoader); ok {
